@@ -179,19 +179,27 @@ def eval_pairs(suite: Suite, pairs, tag: str, jobs=16):
         if fn.startswith(suite.name + "_"):
             os.unlink(os.path.join(d, fn))
     shards = []
-    for k in range(0, len(pairs), SHARD):
-        path = os.path.join(d, f"{suite.name}_{k // SHARD}.v")
-        _write_shard(suite, path, pairs[k : k + SHARD])
+    shard = int(getattr(suite, "shard", SHARD))  # a suite with large observations may ask for smaller files
+    for k in range(0, len(pairs), shard):
+        path = os.path.join(d, f"{suite.name}_{k // shard}.v")
+        _write_shard(suite, path, pairs[k : k + shard])
         shards.append((k, path))
     flags, hits = {}, 0
 
-    def one(kp):
+    class _Infra(Exception):
+        """coqc did not complete (killed, out of memory, timed out): worth one retry on its own"""
+
+    def one(kp, retry=False):
         k, path = kp
         try:
             rc, out, err = _coqc(path)
         except subprocess.TimeoutExpired:
+            if not retry:
+                raise _Infra(kp)
             raise RuntimeError(f"coqc timed out on {path} (model or checker evaluation did not finish)")
         if rc != 0:
+            if not retry and not err.strip():
+                raise _Infra(kp)  # no message: the process was killed (e.g. memory pressure), not a Coq error
             raise RuntimeError(f"coqc failed on {path}:\n{err[-2000:]}")
         flat = " ".join(out.split())
         m = re.search(r"=\s*\((.*),\s*(\d+)(?:%N)?\s*\)\s*:\s*list", flat)
@@ -200,11 +208,27 @@ def eval_pairs(suite: Suite, pairs, tag: str, jobs=16):
         res = [(int(a), int(b)) for a, b in _RES.findall(m.group(1))]
         return k, res, int(m.group(2))
 
+    def safe(kp):
+        try:
+            return one(kp)
+        except _Infra:
+            return kp
+
+    again = []
     with ThreadPoolExecutor(max_workers=jobs) as ex:
-        for k, res, n in ex.map(one, shards):
+        for r in ex.map(safe, shards):
+            if len(r) == 2:
+                again.append(r)
+                continue
+            k, res, n = r
             hits += n
             for i, code in res:
                 flags[k + i] = code
+    for kp in again:  # one more attempt, alone and sequentially; a second failure is reported
+        k, res, n = one(kp, retry=True)
+        hits += n
+        for i, code in res:
+            flags[k + i] = code
     # leave only sources behind; compiled case files are of no use
     for _, path in shards:
         for ext in (".vo", ".vok", ".vos", ".glob"):
